@@ -55,7 +55,9 @@ POINTS = {
     ("pandera/api/dataframe/container.py", "register_default_backends"),
 }
 # files in which *every* function call is a gate (process-global registries shared by all schemas and backends)
-POINT_FILES = ("pandera/api/function_dispatch.py", "pandera/backends/pandas/register.py", "pandera/backends/polars/register.py")
+POINT_FILES = ("pandera/api/function_dispatch.py", "pandera/backends/pandas/register.py", "pandera/backends/polars/register.py",
+               # the lazy, lock-free compilation of a model class into its schema
+               "pandera/api/dataframe/model.py", "pandera/api/pandas/model.py")
 
 
 class Sched:
@@ -203,7 +205,18 @@ def jobsets():
         bad = pd.DataFrame({"a": ["1", "-2"], "b": ["1", "2"]})
         return {"schemas": [s], "jobs": {"A": lambda: s.validate(good), "B": lambda: s.validate(bad)},
                 "region": None, "name": "pandas-same-schema-frame-level-coerce"}
-    sets += [pandas_shared, pandas_distinct, pandas_regex_shared, pandas_three, pandas_shared_frame_coerce]
+    # 6. the first uses of ONE model class (a fresh class per schedule): fields, a @dataframe_check and a check declared
+    #    in Config; each frame violates one of them only
+    def model_first_use():
+        M = type("M", (pa.DataFrameModel,), {
+            "__annotations__": {"a": int, "b": int}, "a": pa.Field(ge=-5),
+            "nonneg_sum": pa.dataframe_check(lambda cls, df: df["a"] + df["b"] > -100),
+            "Config": type("Config", (), {"ge": -1})})
+        only_config = pd.DataFrame({"a": [-3], "b": [5]})       # violates the Config check (a >= -1) only
+        good = pd.DataFrame({"a": [1], "b": [2]})
+        return {"schemas": [], "jobs": {"A": lambda: M.validate(only_config), "B": lambda: M.validate(good)},
+                "region": None, "name": "model-first-use-config-check"}
+    sets += [pandas_shared, pandas_distinct, pandas_regex_shared, pandas_three, pandas_shared_frame_coerce, model_first_use]
     try:
         import polars as pl
         import pandera.polars as pap
@@ -257,6 +270,135 @@ def jobsets():
     except Exception:  # noqa: BLE001
         pass
     return sets
+
+
+# ---- process-global state touched during a validation ---------------------------------------------
+
+def global_state():
+    """process-wide settings of the libraries pandera drives: whoever changes them, even for a moment, changes them for
+    every thread"""
+    import numpy as np
+    out = [("numpy.errstate", tuple(sorted(np.geterr().items())))]
+    try:
+        from pandas._config import config as pdc
+        out.append(("pandas.options", tuple(sorted((k, repr(v)) for k, v in _flat(pdc._global_config)))))
+    except Exception:  # noqa: BLE001
+        pass
+    try:
+        import pandera.config as cfg
+        out.append(("pandera.CONFIG", tuple(sorted((k, repr(v)) for k, v in vars(cfg.CONFIG).items()))))
+    except Exception:  # noqa: BLE001
+        pass
+    try:
+        import decimal
+        out.append(("decimal.context", repr(decimal.getcontext().prec)))
+    except Exception:  # noqa: BLE001
+        pass
+    return out
+
+
+def _flat(d, prefix=""):
+    for k, v in d.items():
+        if isinstance(v, dict):
+            yield from _flat(v, prefix + k + ".")
+        else:
+            yield prefix + k, v
+
+
+def watch_jobs():
+    """single jobs whose parsing / checking steps are candidates for touching library-wide settings"""
+    import pandera as pa
+    obj = lambda vals: pd.Series(vals, dtype=object)  # noqa: E731
+    jobs = {
+        "frame-default": lambda: pa.DataFrameSchema({"a": pa.Column(int, default=0), "b": pa.Column(str, default="z", nullable=True)}).validate(
+            pd.DataFrame({"a": obj([1, None, 3]), "b": obj(["x", None, "y"])})),
+        "series-default": lambda: pa.SeriesSchema(int, default=0).validate(obj([1, None, 3])),
+        "column-default": lambda: pa.Column(float, default=1.5, name="a").validate(pd.DataFrame({"a": obj([1.0, None])})),
+        "coerce": lambda: pa.DataFrameSchema({"a": pa.Column(int, coerce=True)}, coerce=True).validate(pd.DataFrame({"a": ["1", "2"]})),
+        "coerce-fail-lazy": lambda: pa.DataFrameSchema({"a": pa.Column(int, coerce=True)}).validate(pd.DataFrame({"a": ["1", "x"]}), lazy=True),
+        "checks": lambda: pa.DataFrameSchema({"a": pa.Column(float, [pa.Check.gt(0), pa.Check(lambda s_: s_ / s_ > 0)], nullable=True)}).validate(
+            pd.DataFrame({"a": [1.0, 0.0, float("nan")]}), lazy=True),
+        "add-missing": lambda: pa.DataFrameSchema({"a": pa.Column(int), "b": pa.Column(float, default=2.0)}, add_missing_columns=True).validate(
+            pd.DataFrame({"a": [1]})),
+        "drop-invalid": lambda: pa.DataFrameSchema({"a": pa.Column(int, pa.Check.gt(0))}, drop_invalid_rows=True).validate(
+            pd.DataFrame({"a": [1, -1]}), lazy=True),
+        "infer+yaml": lambda: pa.infer_schema(pd.DataFrame({"a": [1, 2], "b": ["x", "y"]})).to_yaml()[:0] or pd.DataFrame(),
+    }
+    try:
+        import polars as pl
+        import pandera.polars as pap
+        jobs["polars-default"] = lambda: pap.DataFrameSchema({"a": pap.Column(pl.Int64, default=0)}).validate(pl.DataFrame({"a": [1, None]}))
+        jobs["polars-coerce"] = lambda: pap.DataFrameSchema({"a": pap.Column(pl.Int64, coerce=True)}).validate(pl.DataFrame({"a": ["1", "2"]}))
+    except Exception:  # noqa: BLE001
+        pass
+    return jobs
+
+
+def run_global_watch(rep):
+    """run each job alone under a tracer that compares the process-wide settings with their initial value at every call
+    event; where a job holds them changed, another thread runs every job to completion at exactly that moment (the first
+    thread is parked inside its window) — every outcome must be the one of the job run alone, and the settings must be
+    back afterwards"""
+    jobs = watch_jobs()
+    solo = {n: outcome_of(f) for n, f in jobs.items()}
+    solo2 = {n: outcome_of(f) for n, f in jobs.items()}
+    base = global_state()
+    for name, fn in jobs.items():
+        if solo[name] != solo2[name]:
+            rep.count("global-watch:unstable-solo")
+            continue
+        windows = []
+
+        def tracer(frame, event, arg):
+            if event == "call" and not windows:
+                now = global_state()
+                if now != base:
+                    changed = [k for (k, v), (_, w) in zip(now, base) if v != w]
+                    inner = {}
+                    # the other threads run now, while this one sits in its window
+
+                    def others():
+                        for n2, f2 in jobs.items():
+                            inner[n2] = outcome_of(f2)
+                    t = threading.Thread(target=others)
+                    t.start()
+                    t.join(120)
+                    windows.append((changed, frame.f_code.co_filename.split("site-packages/")[-1].split("/repo/")[-1],
+                                    frame.f_code.co_name, inner))
+            return None
+        res = {}
+
+        def worker():
+            sys.settrace(tracer)
+            try:
+                res["out"] = outcome_of(fn)
+            finally:
+                sys.settrace(None)
+        th = threading.Thread(target=worker)
+        th.start()
+        th.join(300)
+        after = global_state()
+        case = {"mode": "global-watch", "job": name}
+        rep.case(case, nontrivial=bool(windows))
+        rep.evaluations += 1
+        rep.count("global-watch:" + ("window" if windows else "no-window"))
+        if after != base:
+            changed = [k for (k, v), (_, w) in zip(after, base) if v != w]
+            rep.property_failure(case, f"after the job `{name}` the process-wide settings {changed} are not as before")
+            base = after
+            continue
+        if not windows:
+            continue
+        changed, fname, func, inner = windows[0]
+        case = dict(case, window={"settings": changed, "at": f"{fname}:{func}"})
+        diff = {n2: (inner[n2], solo[n2]) for n2 in inner if inner[n2] != solo[n2]}
+        if diff:
+            n2 = sorted(diff)[0]
+            rep.property_failure(case, f"while `{name}` holds {changed} changed (inside {fname}:{func}), the job `{n2}` run by "
+                                       f"another thread gives {str(diff[n2][0])[:120]}; alone it gives {str(diff[n2][1])[:120]}")
+        elif res.get("out") != solo[name]:
+            rep.property_failure(case, f"`{name}` interleaved with the other jobs gives {str(res.get('out'))[:120]}; alone "
+                                       f"{str(solo[name])[:120]}")
 
 
 def schedules_for(names, rng, n_random, exhaustive_len):
@@ -389,6 +531,9 @@ def run(tier, replay=None):
         if case.get("jobset") == "cold-start":
             cold_start(rep, "quick")
             return rep.finish(rule="replay of the cold-start schedules")
+        if case.get("mode") == "global-watch":
+            run_global_watch(rep)
+            return rep.finish(rule="replay of the process-wide settings watch")
         for make in sets:
             info = make()
             if info["name"] == case["jobset"]:
@@ -420,6 +565,7 @@ def run(tier, replay=None):
                 if bad:
                     rep.property_failure(case, f"thread {bad[0]}: {res.get(bad[0])} under this schedule, "
                                                f"{solo[bad[0]]} when run alone", region=info["region"])
+    run_global_watch(rep)
     n_random = 12 if tier == "quick" else 400
     ex_len = 4 if tier == "quick" else 8
     for make in sets:
